@@ -41,6 +41,7 @@ GLOBAL_RULES = ["clenshaw-curtis", "clenshaw-curtis-zero", "fejer2", "leja", "rl
 KEY_SINGLE = "single-point-delivery-leaves-complete-tensor-parked"
 KEY_CAND = "candidate-request-forgets-tensor-with-parked-samples"
 KEY_SEMI = "connectivity-test-differs-single-vs-batch"
+KEY_STEP = "single-point-surplus-update-misses-step-children:semi-localp"
 
 
 def hx(v):
@@ -426,32 +427,43 @@ def run(res, tier, seed, replay_cases=None):
                 continue
             compare_eval(res, c, oid, what, a, b, scale, stats)
 
-    # ---- classification of tensor-model outcomes
+    # ---- classification of tensor-model outcomes (variants: T/F = with/without the repair of the single-point entry, of clearTesnors)
+    def keys_of(mode):
+        ag = set(mode.split(","))
+        if "TT" in ag:
+            return []
+        if "TF" in ag:
+            return [KEY_CAND]
+        if "FT" in ag:
+            return [KEY_SINGLE]
+        return [KEY_SINGLE, KEY_CAND]
     for c in live:
         fam = c["spec"]["family"]
+        ks = set()
+        for k in range(len(c["orders"])):
+            for kk in keys_of(modes.get("%s.o%d" % (c["id"], k), "TT")):
+                ks.add(kk)
         for what, oi in c.get("deferred_viol", []):
-            asis_any = any(modes.get("%s.o%d" % (c["id"], k)) == "asis" for k in range(len(c["orders"])))
-            key = ("%s:%s" % (KEY_SINGLE, fam)) if asis_any else ("%s:%s" % (KEY_CAND, fam)) if any(c["cand_forget"].values()) else "final-set-depends-on-order:" + fam
             stats["violations"] += 1
-            res.violation(key, "%s [%s; start %s; target %s; order %d %s]" % (what, gl.make_cmd(c["spec"]), c["start"], c["target"], oi, c["orders"][oi]["mode"]),
-                          replay_of(c, oi))
-    asis = [oid for oid, m in modes.items() if m == "asis"]
-    for oid in asis:
+            for key in (sorted("%s:%s" % (k, fam) for k in ks) or ["final-set-depends-on-order:" + fam]):
+                res.violation(key, "%s [%s; start %s; target %s; order %d %s]" % (what, gl.make_cmd(c["spec"]), c["start"], c["target"], oi, c["orders"][oi]["mode"]),
+                              replay_of(c, oi))
+    for oid, m in modes.items():
         c, oi = case_of_order[oid]
         fam = c["spec"]["family"]
-        res.violation("%s:%s" % (KEY_SINGLE, fam),
-                      "a single-point loadConstructedPoints call for a point whose tensor is not registered leaves the (complete, admissible) tensor "
-                      "parked: the implementation agrees with the model of the code as it stands and not with the order-independent one [%s, order %d]"
-                      % (gl.make_cmd(c["spec"]), oi), replay_of(c, oi))
-        stats["violations"] += 1
+        for k in keys_of(m):
+            stats["violations"] += 1
+            text = {KEY_SINGLE: "a single-point loadConstructedPoints call for a point whose tensor is not registered leaves the complete, admissible tensor parked",
+                    KEY_CAND: "getCandidateConstructionPoints un-registers a tensor whose samples are parked; the samples are not promoted when the tensor becomes admissible"}[k]
+            res.violation("%s:%s" % (k, fam), "%s: the implementation follows the model of the code as it stands, not the order-independent one [%s, order %d]"
+                          % (text, gl.make_cmd(c["spec"]), oi), replay_of(c, oi))
     real_mism = []
     for m in mism:
         oid = m.split()[1] if len(m.split()) > 1 else ""
         if oid in case_of_order:
             c, oi = case_of_order[oid]
             has_cand = any(op[0] == "cand" for op in c["orders"][oi]["ops"])
-            if c["spec"]["family"] in ("global", "fourier") and has_cand and "repaired-model" in m and c.get("cand_forget", {}).get(oi):
-                continue   # already reported under KEY_CAND by the direct evaluation
+            _ = has_cand
         real_mism.append(m)
     if real_mism and not res.violations:
         oid = real_mism[0].split()[1] if len(real_mism[0].split()) > 1 else ""
@@ -507,7 +519,10 @@ def compare_eval(res, c, oid, what, a, b, scale, stats):
     worst = max([abs(x - y) for x, y in zip(a, b)] + [0.0])
     if worst > tol or any((x != x) != (y != y) for x, y in zip(a, b)):
         oi = int(oid.split(".o")[1]) if ".o" in oid else 0
-        res.violation("surrogate-depends-on-order:%s" % c["spec"]["family"],
+        key = "surrogate-depends-on-order:%s" % c["spec"]["family"]
+        if erule(c["spec"]) == "semilocalp":
+            key = KEY_STEP
+        res.violation(key,
                       "evaluateBatch differs by %.3g (tolerance %.3g) %s [%s]" % (worst, tol, what, gl.make_cmd(c["spec"])), replay_of(c, oi))
         stats["violations"] += 1
 
